@@ -73,6 +73,11 @@ def dense_payload(node):
         if cplx:
             a[np.diag_indices(n)] = a[np.diag_indices(n)].real
         return a.astype(DT[dt])
+    if g == "intdom":  # small integers, strictly diagonally dominant (invertible, exactly representable in an integer dtype)
+        a = ints(rng, (n, n), dt, -2, 2).astype(np.complex128 if cplx else np.float64)
+        a[np.arange(n), np.arange(n)] = 0
+        d = (np.abs(a.real).sum(1) + np.abs(a.imag).sum(1) + 1) * rng.choice([-1.0, 1.0], size=n)
+        return (a + np.diag(d)).astype(DT[dt])
     if g == "psd_int":  # B^H B + I with small-integer B  (exact, positive definite)
         b = ints(rng, (n, n), dt, -2, 2).astype(np.complex128 if cplx else np.float64)
         a = b.conj().T @ b + np.eye(n)
